@@ -210,9 +210,23 @@ def one_round(n, rnd, rng, tcp, shared=False):
         srv.server_close() if hasattr(srv, 'socket') else None
         with R.Net() as net:
             net.register(ADDR, srv)
+            # a peer that has connected but not (yet) sent its A-ASSOCIATE-RQ: the other associations of the entity
+            # must not wait for it
+            stalled, stalled_link = R.raw_client(srv)
+            import time as _time
+            t0 = _time.time()
             finished = run({'aet': 'SRV', 'address': ADDR[0], 'port': ADDR[1]})
+            took = _time.time() - t0
+            try:
+                stalled.close()
+            except OSError:
+                pass
             net.wait_all(60)
             NETS.append(net)
+            if took > 30:
+                for rec, _ in results.values():
+                    rec['extras'].append('the round took %.0f s while one connected peer had not sent its request yet (the entity serves %d others)' % (took, n))
+                    break
             by_client = {rec['client']: rec for rec, _ in results.values()}
             for link in net.links:
                 r_pdus = R.pdus_of(link['log'], 'R')
@@ -237,6 +251,13 @@ def one_round(n, rnd, rng, tcp, shared=False):
                     sent_ok.append({'client': rec['client'], 'inst': rq['sentInst']})
         threads.append([m for m in mids if m is not None])
         cases.append({'kind': 'assoc', 'a': rec})
+    if rnd == 0 and not tcp:
+        # a long-lived thread of the application: far more message ids than one association ever needs
+        drawn = []
+        t = threading.Thread(target=lambda: drawn.extend(pynetdicom2._new_msg_id() for _ in range(70000)))
+        t.start()
+        t.join(60)
+        threads.append(drawn)
     cases.append({'kind': 'global', 'g': {'sent': sent_ok, 'allSent': all_sent,
                                           'seen': [{'client': s['client'], 'inst': s['inst']} for s in srv.seen], 'threads': threads}})
     return cases, finished
